@@ -89,7 +89,26 @@ class Inputs(html.parser.HTMLParser):
             self.fields[a['name']] = a.get('value')
 
 
+TZ = {'UTC': 'UTC0', 'east9': 'JST-9', 'west5': 'EST5'}
+
+
 def replay(case):
+    import time as _time
+    tz = TZ[case['scn'].get('tz', 'UTC')]
+    saved = os.environ.get('TZ')
+    os.environ['TZ'] = tz
+    _time.tzset()
+    try:
+        return replay_in_zone(case)
+    finally:
+        if saved is None:
+            os.environ.pop('TZ', None)
+        else:
+            os.environ['TZ'] = saved
+        _time.tzset()
+
+
+def replay_in_zone(case):
     from saml2_tophat.saml import NameID
     scn = case['scn']
     want = [scn['wantResp'], scn['wantAssert'], scn['wantEither'], scn['unknownAttr'], scn['skew'], scn.get('idpPolicy', 'defaultOnly')]
@@ -159,7 +178,7 @@ def main():
         seen, keep = set(), []
         for c in cases:
             s = c['scn']
-            k = (s['vclass'], s['binding'], s['enc'], s['signResp'], s['skew'], s['authnCtx'], s['idpPolicy'], s['unknownAttr'], s['sessionExpiry'])
+            k = (s['vclass'], s['binding'], s['enc'], s['signResp'], s['skew'], s['authnCtx'], s['idpPolicy'], s['unknownAttr'], s['sessionExpiry'], s['tz'])
             if k not in seen:
                 seen.add(k)
                 keep.append(c)
